@@ -169,6 +169,10 @@ def ok_expr(e):
             return False
         if isinstance(n, Rational) and (abs(n.p) >= 10 ** 9 or n.q >= 10 ** 9):
             return False   # ESR never has such literals; str() of huge ints also hits CPython's digit limit
+    try:
+        srepr(e)   # sympy's own ordering code raises on a few unevaluated shapes such as Abs(0)**-1
+    except Exception:
+        return False
     return True
 
 
@@ -442,7 +446,7 @@ def search(exprs, seed):
         try:
             s = ESRPrinter().doprint(e)
         except Exception as ex:
-            res["failures"].append(dict(kind="printer-raised", srepr=srepr(e), error=repr(ex)))
+            res["failures"].append(dict(kind="printer-raised", srepr=safe_srepr(e), error=repr(ex)))
             continue
         ev0 = evaluator(e, subexprs=True)
         vals0 = [ev0(pt) for pt in pts]
